@@ -100,6 +100,11 @@ def run(an: Analysis, rep):
     rep.add("R06.3", f"{fn.qual}::fall-through", fall_identity, loc(fn.module, fn.node),
             "values without an arm are returned unchanged" if fall_identity else "fall-through does not return its argument")
     rep.run(r064, an, rep)
+    from .common import SharedRules
+    from . import c03
+    sh = SharedRules(rep, "R06.R", "encoder re-layout and table keys (shared with C03's R03.3/R03.7): normalize -> to_code -> from_code -> normalize is a fixed point only if they hold")
+    rep.run(c03.r037, an, sh)
+    rep.run(c03.r033, an, sh, c03.table_class(an))
 
 
 def _shape_kinds(tg, t):
